@@ -768,6 +768,14 @@ func init() {
 		if in.fs != nil {
 			return in.fs.stat(in, fr, p)
 		}
+		if c, ok := p.Concrete(); ok {
+			// native-when-concrete: the host file system (same sandbox as the native replay)
+			fi, err := os.Stat(c)
+			if err != nil {
+				return Tuple{Iface{}, in.mkError(fr, mkStr(err.Error()))}
+			}
+			return Tuple{Iface{T: fileInfoMarker, V: Native{V: fakeFileInfo{dir: fi.IsDir()}}}, nilError()}
+		}
 		// nondeterministic: error | file | dir
 		r := in.uf("os.Stat", []Value{p}, []Sort{BV(2)})
 		switch {
